@@ -264,6 +264,42 @@ def clause2_mutation(ctx, P, T):
            "insertion path does not (finish the duplicate scan, write key and value, set bit <distance> in the home bucket): %s"
            % (bad[1] if bad else ""), witness=bad[0].witness() if bad else None)
     ctx.ob("C17.2 R-GATE", put, "invalid-key-refused", refuse, "the invalid-key marker is not refused as a key")
+    # displacement: only key and value of the vacated slot are copied; the hop word of the slot being filled belongs to
+    # the bucket that is HOMED there and must not be touched; the hop word of the checked bucket is rewritten once
+    fc = T.closer
+    fields_free = set()
+    hop_sites = []
+    whole = []
+    for i in fc.all_insts():
+        if i.op == "store":
+            sf = _slot_field_store(P, fc, i)
+            if sf:
+                idx_t, fld = sf
+                if idx_t == ("param", 1, fc.params[1]["name"]):
+                    fields_free.add(fld)
+                if fld == "hop_info":
+                    hop_sites.append((idx_t, P.term(fc, i.a[0])))
+        if i.op == "call" and i.callee and (i.callee.startswith("llvm.memcpy") or i.callee.startswith("llvm.memmove")):
+            dt = P.term(fc, i.a[0])
+            if Q.mentions(dt, lambda x: x[0] == "index") and P.const_int(i.a[2]) is not None and \
+                    P.const_int(i.a[2]) >= P.structs["struct.hashtable_string"]["size"]:
+                whole.append(i)
+            else:
+                x = dt
+                fld = None
+                while x[0] == "field":
+                    if x[2] == "struct.hashtable_string":
+                        fld = x[3]
+                    x = x[1]
+                if fld and x[0] == "index" and x[2] == ("param", 1, fc.params[1]["name"]):
+                    fields_free.add(fld)
+    okd = fields_free == {"key", "value"} and not whole and len(hop_sites) == 1 and \
+        Q.mentions(hop_sites[0][0], lambda x: Q.is_call_to(x, T.wrap.srcname)) and \
+        Q.mentions(hop_sites[0][1], lambda x: x[0] == "op" and x[1] == "or") and Q.mentions(hop_sites[0][1], lambda x: x[0] == "op" and x[1] == "and")
+    ctx.ob("C17.2 R-ORDER", fc, "displacement-copies-key-and-value-only", okd,
+           "displacement must copy exactly key and value into the freed slot and rewrite only the checked bucket's hop word "
+           "(fields written at the freed slot: %s, whole-slot copies: %d, hop word stores: %d) - copying the hop word orphans the "
+           "entries homed at the freed slot" % (sorted(fields_free), len(whole), len(hop_sites)))
     if T.get is not None:
         stores = []
         for i in T.get.all_insts():
@@ -319,4 +355,4 @@ def run(ctx):
     if sweeps < 2:
         raise AnalysisBroken("table sweeps found: %d" % sweeps)
     ctx.floor("C17.1 R-BOUND", 20)
-    ctx.floor("C17.2 R-ORDER", 4)
+    ctx.floor("C17.2 R-ORDER", 6)
